@@ -130,6 +130,10 @@ pub mod hash_table {
     }
 }
 
+#[cfg(hashbrown_verif)]
+#[doc(hidden)]
+pub use crate::raw::verif as __verif;
+
 pub use crate::map::HashMap;
 pub use crate::set::HashSet;
 pub use crate::table::HashTable;
